@@ -79,6 +79,14 @@ func main() {
 	os.MkdirAll(dir, 0755)
 	opts := &EncOpts{NonnilParams: *nonnil}
 	switch cmd {
+	case "globals":
+		w.immutableArr("")
+		gw := w.Mod.computeGlobalWrites()
+		for _, f := range w.FuncList {
+			for _, g := range gw[f] {
+				fmt.Printf("%-60s %-32s %-12s %s\n", funcKey(f), g.Global, g.How, shortPos(w.Fset, g.Instr.Pos()))
+			}
+		}
 	case "immutable":
 		w.immutableArr("")
 		for _, f := range w.Mod.immutableFields() {
